@@ -645,7 +645,8 @@ impl ArrayLike for PickObjectKeyValues {
 		Ok(Some(
 			KeyValue::into_untyped(KeyValue {
 				key: key.clone(),
-				value: Thunk::evaluated(self.obj.get_or_bail(key.clone())?),
+				// the element exists as soon as the key does; the value stays lazy (as in get_lazy)
+				value: self.obj.get_lazy_or_bail(key.clone()),
 			})
 			.expect("convertible"),
 		))
